@@ -219,6 +219,8 @@ type prediction struct {
 	N, Accepted          int
 	Err, Equiv, Mism     string
 	WF, SgDropRef        bool
+	Unref                string // what the model's own run leaves unreferenced (encoded names, comma separated)
+	UnrefSG              bool   // ... and all of it has the shape of F-C03h
 	Shape1, Shape2       string // three bits: only mixed lists / only changed service-groups / only these two kinds
 	Refused, Plan, Plan2 string
 }
@@ -249,6 +251,10 @@ func (c *checker) predict(shared []string, a, b panos.VerifVsys) (p prediction) 
 			p.WF = v == "1"
 		case "sgdropref":
 			p.SgDropRef = v == "1"
+		case "unref":
+			p.Unref = v
+		case "unrefsg":
+			p.UnrefSG = v == "1"
 		case "shape1":
 			p.Shape1 = v
 		case "shape2":
@@ -314,6 +320,17 @@ func (c *checker) judge(symptom string, o observed) (pred string, extra map[stri
 			}
 		} else if o.r.Err == "delete-referenced-service" && pr.SgDropRef && refused == pr.Refused && o.r.Mismatch == "srv" {
 			pred, extra["shape"] = "service_group_same_name_members_differ", "delete-of-a-service-only-the-device-group-holds"
+		}
+	case "unreferenced_objects_left", "resume_leaves_unreferenced_objects":
+		// F-C03h: the model leaves exactly these objects, all of them services a same-named target service-group names
+		var l []string
+		for _, n := range o.r.Unref {
+			l = append(l, enc(n))
+		}
+		if pr.Unref != strings.Join(l, ",") {
+			extra["model_predicts"] = false
+		} else if pr.UnrefSG {
+			pred, extra["shape"] = "service_kept_for_a_service_group_that_is_not_sent", "only-member-services-of-a-same-named-target-service-group"
 		}
 	case "second_plan_not_empty", "resume_second_plan_not_empty":
 		switch {
@@ -853,7 +870,7 @@ func (c *checker) resume(in caseInput, name string, a, b panos.VerifVsys, cmds [
 			res.Disagree("exec after cut (driver)", in, "", rk.Raw)
 			continue
 		}
-		what := fmt.Sprintf("vsys %s, cut after %d of %d requests", name, k, len(cmds))
+		what := fmt.Sprintf("vsys %s, cut after %d of %d requests (first run: %s)", name, k, len(cmds), strings.Join(cmds, ";"))
 		obs := observed{shared: in.Shared, a: r.Tree, b: b, cmds: perk[name], r: rk, fl: flc}
 		report := func(symptom, what string, o observed) {
 			pred, extra := c.judge(symptom, o)
